@@ -117,6 +117,16 @@ class Check(Property):
             self.bump(f)
             self.bump("kind." + kind)
             out.append(c)
+        # absolute temperatures written on offset or absolute scales: equality, order and differences
+        temps = ["kelvin", "degree_Celsius", "degree_Fahrenheit", "degree_Rankine", "degree_Reaumur"]
+        tm = [Fraction(0), Fraction(0), Fraction(27315, 100), Fraction(-40), Fraction(100), Fraction(45967, 100), Fraction(32)]
+        for _ in range(300 if self.tier == "quick" else 3000):
+            f = rng.choice(["eq", "eq", "lt", "ge", "sub"])
+            a = {"m": frac_s(rng.choice(tm)), "u": [[rng.choice(temps), "1/1"]]}
+            b = {"m": frac_s(rng.choice(tm)), "u": [[rng.choice(temps), "1/1"]]}
+            self.bump("kind.temperature")
+            out.append({"kind": "temperature", "f": f, "a": a, "b": b,
+                        "ops": [{"op": "q", "f": f, "a": a, "b": b, "auto": False}]})
         return out
 
     # ------------------------------------------------------------------ helpers on the real code
@@ -183,6 +193,9 @@ class Check(Property):
         """the same physical quantity in other compatible units (exact)"""
         P = regs.pools()
         tgt = {}
+        temps = ["kelvin", "degree_Celsius", "degree_Fahrenheit", "degree_Rankine", "degree_Reaumur"]
+        if len(q._units) == 1 and next(iter(q._units)) in temps and next(iter(q._units.values())) == 1:
+            return q.to(u.Unit(u.UnitsContainer({rng.choice(temps): 1})))
         for k, e in q._units.items():
             e = regs.to_frac(e)
             pf, uu = P.proj.resolve(k)
